@@ -27,7 +27,7 @@ S3x4 = shape(3, 4, 3, [1, 2, 3, 1, 3, 3, 2, 1, 2, 2, 1, 3], 3)
 S3x4b = shape(3, 4, 2, [1, 2, 1, 1, 2, 2, 2, 1, 1, 2, 1, 2], 2)
 
 DEFAULTS = dict(MaxSize=2, UseTimer=True, MaxKFires=1, MaxOFires=1, MaxBarriers=1, MaxTicks=0, MaxRead=2, WithEOI=False,
-                AtomicFlush=True, Dev_SnapshotAfterNextRead=False, MaxLen=100000)
+                AtomicFlush=True, Dev_NoFlushAtEOI=True, Dev_SnapshotAfterNextRead=False, MaxLen=100000)
 
 
 def consts(sh, **over):
@@ -57,6 +57,28 @@ def self_test_model(c):
     c.add_tlc(r, "Pipeline self-test (Dev_SnapshotAfterNextRead must violate StreamsAlwaysOK)", must_hold=False)
     if r.violated != "StreamsAlwaysOK":
         c.errors.append("model self-test: expected StreamsAlwaysOK to fail with Dev_SnapshotAfterNextRead, got %s %s" % (r.violated, r.error))
+
+
+def eoi_design(c):
+    """end of input without batch time-outs: the intended design (Flush + final watermark + SourceComplete + operators.flush())
+    delivers everything; the model of the code as it is (Dev_NoFlushAtEOI) must reproduce the known finding"""
+    base = consts(S2x3, MaxSize=3, MaxRead=3, UseTimer=False, WithEOI=True)
+    r = vlib.run_tlc("Pipeline", cfg=dict(constants=dict(base, Dev_NoFlushAtEOI=False), invariants=MODEL_INVS + ["NoLossAtEOI"], view="view"), timeout=300)
+    c.add_tlc(r, "Pipeline exhaustive, intended end-of-input design (Dev_NoFlushAtEOI=FALSE, no time-outs) %s" % brief(base))
+    r = vlib.run_tlc("Pipeline", cfg=dict(constants=dict(base, Dev_NoFlushAtEOI=True), invariants=MODEL_INVS + ["NoLossAtEOI"], view="view"), timeout=300)
+    c.add_tlc(r, "Pipeline, code as it is (Dev_NoFlushAtEOI=TRUE) must violate NoLossAtEOI", must_hold=False)
+    if r.violated != "NoLossAtEOI":
+        c.errors.append("Dev_NoFlushAtEOI=TRUE did not violate NoLossAtEOI in the model: %s %s" % (r.violated, r.error))
+
+
+def run_events(events, ri):
+    out, on = [], False
+    for e in events:
+        if e.get("op") == "Reset":
+            on = e.get("run") == ri
+        if on:
+            out.append(e)
+    return out
 
 
 def brief(cc):
@@ -161,6 +183,11 @@ def traces(c, runs, seed):
     sh, payload, res, events = record(c, runs, seed)
     go_viol = {}
     for v in res.get("violations", []):
+        if v.get("known"):
+            if v.get("property") == c.prop:
+                c.add_violation(v["what"], dict(mode="trace-run", property=c.prop, shape=sh, recorded_run=run_events(events, v["behaviour"]), violation=v),
+                                known=v["known"])
+            continue
         go_viol.setdefault(v["behaviour"], []).append(v)
     for e in res.get("errors", []):
         c.errors.append("pipeline trace mode: " + e)
